@@ -53,6 +53,7 @@ def main(argv=None) -> int:
         return 1 if ok else 0
 
     t0 = time.time()
+    _arm_watchdog(pid, args.tier)
     try:
         if pid in ENGINE_B:
             # the modelled primitives must agree with CPython's before anything explored with them is believed
@@ -91,6 +92,32 @@ def main(argv=None) -> int:
           f"distinct={cov.get('distinct_nontrivial')} exhaustive={cov.get('exhaustive')} "
           f"violations={len(new)} known={len(seen_known)}")
     return 1 if new else 0
+
+
+def _arm_watchdog(pid: str, tier: str):
+    """A change to the code under test can make it loop for ever inside an enumeration.  The check must not hang with it: after a
+    generous wall-clock budget the whole process group (the check and its worker pool) is stopped with exit status 2 - an internal
+    error, never a verdict."""
+    import signal
+    import threading
+    budget = float(os.environ.get('VERIF_BUDGET_S') or (1800 if tier == 'quick' else 4 * 3600))
+    try:
+        os.setpgrp()
+    except OSError:
+        pass
+
+    def fire():
+        sys.stderr.write(f'INTERNAL: {pid} exceeded its wall-clock budget of {budget:.0f} s (a non-terminating call in the code under test, or an overloaded machine); stopping\n')
+        sys.stderr.flush()
+        try:
+            signal.signal(signal.SIGTERM, signal.SIG_IGN)
+            os.killpg(os.getpgrp(), signal.SIGTERM)
+        except Exception:  # noqa
+            pass
+        os._exit(2)
+    t = threading.Timer(budget, fire)
+    t.daemon = True
+    t.start()
 
 
 def core_internal_errors():
